@@ -205,6 +205,172 @@ def projection_section(ctx):
               'the value returned by the branch path')
 
 
+# ================================================================================================ tree_getitem
+def getitem_section(ctx):
+    """tree_getitem(tree, path) for a list / tuple path: the loop follows the path; KeyError exactly when a step is missing"""
+    m = ctx.mod('_dict')
+    fn = m.func('tree_getitem')
+    loop = select(fn, 'For#0')
+    t, path = Const('TREE_G', Val), Const('PATH', L)
+    FOLLOW = Function('FOLLOW', IntSort(), Val)
+    k = Int('k!f')
+    follow_def = [FOLLOW(0) == t, ForAll([k], Implies(And(0 <= k, k < LEN(path)), FOLLOW(k + 1) == CHILD(FOLLOW(k), VA(path, k)))), LEN(path) >= 0]
+    present = ForAll([k], Implies(And(0 <= k, k < LEN(path)), HAS(FOLLOW(k), VA(path, k))))
+
+    def inv(st, entry):
+        return [('follows_path', st.env['res'].t == FOLLOW(st.ghost['tree_getitem.For0.k']))]
+    spec = LoopSpec('tree_getitem.For0', inv)
+    ex = Exec(m, [TreeVals(), TypePreds()], loops={id(loop): spec}, inline={'tree_getitem': (m, fn)}, name='')
+    st = State()
+    st.pc += follow_def
+    outs = ex.run_function(st, 'tree_getitem', [V(t), SV('keylist', path)], {})
+    ctx.absorb(ex)
+    ctx.record_function(m, 'tree_getitem', fn, ex.stmts_executed, excluded=['dotted-string paths (item.split): path precondition "item is a list or tuple of keys"'])
+    nret = 0
+    for o in outs:
+        hy = ex.facts + o.st.pc
+        if o.kind == 'return':
+            nret += 1
+            ctx.post('tree_getitem.returns_node_at_end_of_path', hy, o.val.t == FOLLOW(LEN(path)))
+        elif o.kind == 'raise':
+            kk = o.st.ghost.get('tree_getitem.For0.k')
+            ctx.post('tree_getitem.never_raises_on_a_listed_path.%s' % o.val, hy + [present], BoolVal(False), kind='safety')
+            if kk is not None:
+                ctx.post('tree_getitem.raises_only_at_a_missing_step.%s' % o.val, hy, And(0 <= kk, kk < LEN(path), Not(HAS(FOLLOW(kk), VA(path, kk)))))
+        else:
+            raise OutOfSubset('tree_getitem: unexpected %s' % o.kind)
+    if nret == 0:
+        raise OutOfSubset('tree_getitem has no returning path')
+    ctx.cover('tree_getitem.path_of_two_steps_present', follow_def + [present, LEN(path) == 2])
+    ctx.trust('FOLLOW(k) is the node reached after k steps of the path (defined by its recurrence); that the paths listed by tree_items lead to their leaves '
+              'is checked by the bounded stand-in only (C15:tree_getitem:leaf)')
+
+
+# ================================================================================================ _tree_setitem (heap model)
+def setitem_section(ctx):
+    """_tree_setitem(tree, item, base, ignore, types) on a mutable heap: For#0 walks item[:-2] creating a new branch wherever the key is missing or
+    holds a non-branch, existing branches are kept (same object), the leaf item[-1] is written under item[-2] unless it is ignored and the key exists,
+    and nothing off the path changes.  Clauses from the property's mechanism "path insertion creating branches on demand" and the ignore-list clause."""
+    from z3 import Array, Store, Select
+    from pyvc.th_tree import TreeHeap, R, ISB, IGN, ITEM
+    m = ctx.mod('_dict')
+    fn = m.func('_tree_setitem')
+    loop = select(fn, 'For#0')
+    if not (isinstance(loop.body[-1], ast.Assign) and len(loop.body[-1].targets) == 1 and isinstance(loop.body[-1].targets[0], ast.Name)):
+        raise SelectorError('_tree_setitem/For#0 does not end with an assignment to the cursor (`res = res[key]`)')
+    descent = loop.body[-1]
+    cursor = descent.targets[0].id
+    tree, n, next0 = Ints('TREE_S NITEM NEXT0')
+    H0has = Array('H0has', IntSort(), IntSort(), BoolSort())
+    H0get = Array('H0get', IntSort(), IntSort(), IntSort())
+    RANK = Function('RANK', IntSort(), IntSort())
+    o, kk, i, j = Ints('o!s k!s i!s j!s')
+    KN = 'setitem.For0.k'
+
+    def Mz(x):                                  # strictly increasing along the path: old nodes by decreasing rank, then new nodes by identity
+        return If(x < next0, -RANK(x), x - next0)
+    pre = [tree < next0, tree >= 0, n >= 0, next0 >= 1,
+           ForAll([j], Implies(And(0 <= j, j < n), And(0 <= ITEM(j), ITEM(j) < next0))),                       # keys and the leaf exist already
+           ForAll([o, kk], Implies(Select(H0has, o, kk), And(0 <= Select(H0get, o, kk), Select(H0get, o, kk) < next0, o < next0))),   # well-formed heap
+           ForAll([o], RANK(o) >= 1),
+           ForAll([o, kk], Implies(And(Select(H0has, o, kk), ISB(Select(H0get, o, kk))), RANK(Select(H0get, o, kk)) < RANK(o))),      # branches form a finite tree
+           ForAll([o], Implies(o >= next0, ISB(o)))]                                                              # base() creates branches
+    ctx.trust('precondition of _tree_setitem (from its call sites): base() returns a new empty instance of one of the branch types; the branches reachable '
+              'from `tree` form a finite tree (no cycles); keys and leaf are existing objects')
+
+    def on_path(st, x, key, upto):
+        N = st.ghost['N']
+        return z3.Exists([j], And(0 <= j, j < upto, x == Select(N, j), key == ITEM(j)))
+
+    def inv(st, entry):
+        k = st.ghost[KN]
+        N, Hh, Hg, nx = st.ghost['N'], st.ghost['Hhas'], st.ghost['Hget'], st.ghost['next']
+        return [('at_node_k', And(st.env[cursor].t == Select(N, k), Select(N, 0) == tree)),
+                ('path_so_far_is_linked', ForAll([j], Implies(And(0 <= j, j < k), And(Select(Hh, Select(N, j), ITEM(j)), Select(Hg, Select(N, j), ITEM(j)) == Select(N, j + 1),
+                                                                                         ISB(Select(N, j + 1)))))),
+                ('allocation', And(nx >= next0, ForAll([j], Implies(And(0 <= j, j <= k), And(0 <= Select(N, j), Select(N, j) < nx))))),
+                ('nodes_strictly_ordered', ForAll([i, j], Implies(And(0 <= i, i < j, j <= k), Mz(Select(N, i)) < Mz(Select(N, j))))),
+                ('off_path_unchanged', ForAll([o, kk], Implies(Not(on_path(st, o, kk, k)),
+                                                                And(Select(Hh, o, kk) == Select(H0has, o, kk), Select(Hg, o, kk) == Select(H0get, o, kk))))),
+                ('existing_branches_kept', ForAll([j], Implies(And(0 <= j, j < k, Select(N, j) < next0, Select(H0has, Select(N, j), ITEM(j)),
+                                                                   ISB(Select(H0get, Select(N, j), ITEM(j)))),
+                                                               Select(N, j + 1) == Select(H0get, Select(N, j), ITEM(j))))),
+                ('other_steps_create_new_nodes', ForAll([j], Implies(And(0 <= j, j < k, Not(And(Select(N, j) < next0, Select(H0has, Select(N, j), ITEM(j)),
+                                                                                                ISB(Select(H0get, Select(N, j), ITEM(j)))))),
+                                                                     Select(N, j + 1) >= next0)))]
+
+    def ghost_havoc(ex, st):
+        st.ghost['N'] = Array(fresh_name('N'), IntSort(), IntSort())
+        st.ghost['Hhas'] = Array(fresh_name('Hhas'), IntSort(), IntSort(), BoolSort())
+        st.ghost['Hget'] = Array(fresh_name('Hget'), IntSort(), IntSort(), IntSort())
+        st.ghost['next'] = fresh_int('next')
+
+    def record_node(ex, st, stmt):               # ghost: the node reached after this step is N[k+1]
+        st.ghost['N'] = Store(st.ghost['N'], st.ghost[KN] + 1, st.env[cursor].t)
+    spec = LoopSpec('setitem.For0', inv, ghost_havoc=ghost_havoc)
+    ex = Exec(m, [TreeHeap(), TypePreds()], loops={id(loop): spec}, inline={'_tree_setitem': (m, fn)}, hooks=[(lambda s_: s_ is descent, record_node)], name='_tree')
+    st = State()
+    st.pc += pre
+    st.ghost.update(Hhas=H0has, Hget=H0get, next=next0, N=Store(Array('N0', IntSort(), IntSort()), 0, tree))
+    item = SV('reflist', None, n=n, off=IntVal(0))
+    outs = ex.run_function(st, '_tree_setitem', [R(tree), item, SV('ctor'), SV('ignorelist'), SV('types')], {})
+    ctx.absorb(ex)
+    ctx.record_function(m, '_tree_setitem', fn, ex.stmts_executed)
+    leaf, last = ITEM(n - 1), ITEM(n - 2)
+    nnorm = 0
+    for out in outs:
+        hy = ex.facts + out.st.pc
+        if out.kind == 'raise':
+            if out.val == 'ValueError':
+                ctx.post('_tree_setitem.raises_ValueError_only_for_short_items', hy, n < 2)
+            else:
+                ctx.post('_tree_setitem.never_raises.%s' % out.val, hy, BoolVal(False), kind='safety')
+            continue
+        if out.kind != 'return':
+            raise OutOfSubset('_tree_setitem: unexpected %s' % out.kind)
+        nnorm += 1
+        g = out.st.ghost
+        N, Hh, Hg = g['N'], g['Hhas'], g['Hget']
+        k = g[KN]
+        end = Select(N, n - 2)
+        ctx.post('_tree_setitem.loop_covers_the_branch_part_of_the_path', hy, And(k == n - 2, n >= 2))
+        ctx.post('_tree_setitem.path_is_linked_by_branches', hy, ForAll([j], Implies(And(0 <= j, j < n - 2),
+                 And(Select(Hh, Select(N, j), ITEM(j)), Select(Hg, Select(N, j), ITEM(j)) == Select(N, j + 1), ISB(Select(N, j + 1))))))
+        written = And(Select(Hh, end, last), Select(Hg, end, last) == leaf)
+        kept = And(Select(Hh, end, last) == Select(H0has, end, last), Select(Hg, end, last) == Select(H0get, end, last))
+        ign = And(Select(H0has, end, last), IGN(leaf), end < next0)
+        ctx.post('_tree_setitem.leaf_written_unless_ignored', hy, Implies(Not(And(Select(Hh, end, last), IGN(leaf))), written) if False else
+                 Or(written, And(IGN(leaf), kept, Select(Hh, end, last))))
+        ctx.post('_tree_setitem.ignored_leaf_never_overwrites_an_existing_entry', hy, Implies(And(IGN(leaf), end < next0, Select(H0has, end, last)), kept))
+        ctx.post('_tree_setitem.leaf_written_when_not_ignored_or_key_absent', hy, Implies(Or(Not(IGN(leaf)), Not(And(end < next0, Select(H0has, end, last)))), written))
+        ctx.post('_tree_setitem.nothing_off_the_path_changes', hy, ForAll([o, kk], Implies(Not(on_path(out.st, o, kk, n - 1)),
+                 And(Select(Hh, o, kk) == Select(H0has, o, kk), Select(Hg, o, kk) == Select(H0get, o, kk)))))
+        ctx.post('_tree_setitem.existing_branches_are_kept', hy, ForAll([j], Implies(And(0 <= j, j < n - 2, Select(N, j) < next0, Select(H0has, Select(N, j), ITEM(j)),
+                 ISB(Select(H0get, Select(N, j), ITEM(j)))), Select(N, j + 1) == Select(H0get, Select(N, j), ITEM(j)))))
+        ctx.post('_tree_setitem.missing_branches_are_new_objects', hy, ForAll([j], Implies(And(0 <= j, j < n - 2, Not(And(Select(N, j) < next0, Select(H0has, Select(N, j), ITEM(j)),
+                 ISB(Select(H0get, Select(N, j), ITEM(j)))))), Select(N, j + 1) >= next0)))
+    if nnorm == 0:
+        raise OutOfSubset('_tree_setitem has no normal exit')
+    ctx.cover('_tree_setitem.precondition_satisfiable', pre + [n == 4, Select(H0has, tree, ITEM(0)), ISB(Select(H0get, tree, ITEM(0)))])
+
+
+def attach_replays(ctx):
+    """the obligations of the P sections live in abstractions (an uninterpreted tree sort, a heap of ids): a failed one is re-checked natively by a
+    search over the small scope of rac/C15_ded.py that exercises the same clause"""
+    kinds = (('projection.', 'projection'), ('tree_items.', 'projection'), ('tree_keys.', 'projection'), ('tree_values.', 'projection'),
+             ('tree_getitem.', 'getitem'), ('_tree_setitem.', 'setitem'), ('_tree.setitem.', 'setitem'))
+    for ob in ctx.obligations:
+        short = ob.name[len(PROP) + 1:]
+        for prefix, kind in kinds:
+            if short.startswith(prefix) and not ob.witness:
+                ob.witness = dict(site=IntVal(0))
+                ob.meta['replay'] = (lambda model, kind=kind, name=ob.name: dict(kind=kind, obligation=name))
+                break
+
+
 def build(ctx):
     frame_section(ctx)
+    ctx.guarded('_tree_setitem', lambda: setitem_section(ctx))
     ctx.guarded('projection', lambda: projection_section(ctx))
+    ctx.guarded('tree_getitem', lambda: getitem_section(ctx))
+    attach_replays(ctx)
